@@ -3478,7 +3478,15 @@ pub fn run(rep: &mut vx::Report) {
     }
 
     // ---------------------------------------------------------------- the sweep
-    let wall_cap = std::env::var("C01_WALL_CAP_S").ok().and_then(|s| s.parse::<f64>().ok()).unwrap_or(if thorough { 840.0 } else { 55.0 });
+    // The budget (55 s quick, 14 min thorough) is meant for 16 idle cores. When other work
+    // already occupies the machine the same CPU budget takes proportionally longer, so the
+    // wall cap is stretched by the load factor seen at start (never shrunk).
+    let ncpu = std::thread::available_parallelism().map(|n| n.get()).unwrap_or(16) as f64;
+    let load1 = std::fs::read_to_string("/proc/loadavg").ok().and_then(|s| s.split_whitespace().next().and_then(|x| x.parse::<f64>().ok())).unwrap_or(0.0);
+    let load_factor = ((load1 + ncpu) / ncpu).max(1.0);
+    let base_cap = if thorough { 840.0 } else { 55.0 };
+    let wall_cap = std::env::var("C01_WALL_CAP_S").ok().and_then(|s| s.parse::<f64>().ok()).unwrap_or(base_cap * load_factor);
+    rep.note("wall_cap", json!({"base_s": base_cap, "load1_at_start": load1, "cpus": ncpu, "load_factor": load_factor, "effective_s": wall_cap}));
     let only: Option<String> = std::env::var("C01_ONLY").ok();
     let totals: Vec<u64> = FAMS.iter().map(|f| if only.as_deref().map(|o| o.split(',').any(|x| x == f.name())).unwrap_or(true) { space.cases(*f) } else { 0 }).collect();
     let sw = Sweep {
